@@ -473,9 +473,7 @@ func (vc *VC) havocModifies(st *State, env *SpecEnv, mods []*Expr) error {
 	for _, ss := range sl {
 		s := Sort(ss)
 		old := vc.heap(st, s)
-		nh := vc.Fresh("hm", heapSort(s))
-		st.assume(Term{fmt.Sprintf("(forall ((q!r Ref)) (! (=> (not (or %s false)) (= (select %s q!r) (select %s q!r))) :pattern ((select %s q!r))))",
-			strings.Join(per[s], " "), nh.S, old.S, nh.S), SBool})
+		nh := vc.MixHeap(s, old, Term{fmt.Sprintf("(not (or %s false))", strings.Join(per[s], " ")), SBool})
 		st.heaps[s] = nh
 		vc.heapReg[s] = true
 	}
@@ -496,12 +494,10 @@ func (vc *VC) copyRange(st *State, elem types.Type, dst, src Term, n Term) {
 	for _, ss := range sl {
 		s := Sort(ss)
 		old := vc.heap(st, s)
-		nh := vc.Fresh("hc", heapSort(s))
 		q := Term{"q!r", SRef}
 		inDst := And(Eq(Rid(q), Rid(dst)), Le(Roff(dst), Roff(q)), Lt(Roff(q), Add(Roff(dst), size)))
 		from := Select(old, MkRef(Rid(src), Add(Roff(src), Sub(Roff(q), Roff(dst)))))
-		st.assume(Term{fmt.Sprintf("(forall ((q!r Ref)) (! (= (select %s q!r) (ite %s %s (select %s q!r))) :pattern ((select %s q!r))))",
-			nh.S, inDst.S, from.S, old.S, nh.S), SBool})
+		nh := vc.LambdaHeap("hc", s, Ite(inDst, from, Select(old, q)))
 		st.heaps[s] = nh
 		vc.heapReg[s] = true
 	}
@@ -658,11 +654,9 @@ func (vc *VC) havocRegion(st *State, elem types.Type, dst Term, n Term) {
 	size := Mul(n, IntLit(k))
 	for s := range leaf {
 		old := vc.heap(st, s)
-		nh := vc.Fresh("hv", heapSort(s))
 		q := Term{"q!r", SRef}
 		inDst := And(Eq(Rid(q), Rid(dst)), Le(Roff(dst), Roff(q)), Lt(Roff(q), Add(Roff(dst), size)))
-		st.assume(Term{fmt.Sprintf("(forall ((q!r Ref)) (! (=> (not %s) (= (select %s q!r) (select %s q!r))) :pattern ((select %s q!r))))",
-			inDst.S, nh.S, old.S, nh.S), SBool})
+		nh := vc.MixHeap(s, old, Not(inDst))
 		st.heaps[s] = nh
 		vc.heapReg[s] = true
 	}
